@@ -135,6 +135,7 @@ TEval ==
                      ELSE IF Ev.fault = "exception2" THEN "InjectedTargetError2"
                      ELSE IF Ev.fault = "exception3" THEN "InjectedStopIteration"
                      ELSE IF Ev.fault = "exception4" THEN "InjectedLinAlgError"
+                     ELSE IF Ev.fault = "exception5" THEN "InjectedTypeError"
                      ELSE "ValueError"
          st2   == [st EXCEPT !.nev = st.nev + 1,
                              !.rem = IF ispoll THEN st.rem \ {d} ELSE st.rem]
@@ -177,7 +178,7 @@ TEval ==
                     => Ev.n <= s.budgetEff, "C03.budget_respected")
         \cup Chk(~s.faulted, "C10.no_call_after_fault")
         \cup Chk(Ev.fault # "" => Ev.outcome = faultexp,
-                 IF Ev.fault \in {"exception", "exception2", "exception3", "exception4"} THEN "C10.same_exception_type"
+                 IF Ev.fault \in {"exception", "exception2", "exception3", "exception4", "exception5"} THEN "C10.same_exception_type"
                  ELSE "C10.invalid_value_is_valueerror")
         \cup Chk(~ok => Ev.nlogged = s.nlog, "C10.nothing_invalid_logged")
         \cup Chk((ok /\ Ev.fault = "") => Ev.retok, "C12.returned_value_is_observed")
@@ -594,6 +595,9 @@ TResult ==
         \cup Chk((~noisy /\ s.noise = "det" /\ DefPolicy) => Ev.fvalR = s.minY, "C04.incumbent_is_min")
         \cup Chk(~noisy => Ev.fsdzero, "C04.fsd_zero")
         \cup Chk(~noisy => Ev.ttype = "deterministic", "C04.target_type_det")
+        \* a target that IS deterministic and is not declared noisy (scenario truth, not the level the code settled on)
+        \* is reported and treated as deterministic
+        \cup Chk(s.noise = "det" => (Ev.ttype = "deterministic" /\ ~noisy), "C04.target_type_det")
         \cup Chk(~noisy => nf = 0 /\ Ev.nvec = 0, "C04.no_final_sampling")
         \cup Chk((~noisy /\ s.noise = "det") => Ev.fvalR <= first, "C06.result_leq_start")
         \* stochastic (C05)
@@ -620,14 +624,15 @@ TCrash ==
          exptype == IF s.injected = "exception" THEN "InjectedTargetError"
                     ELSE IF s.injected = "exception2" THEN "InjectedTargetError2"
                     ELSE IF s.injected = "exception3" THEN "InjectedStopIteration"
-                    ELSE IF s.injected = "exception4" THEN "InjectedLinAlgError" ELSE "ValueError"
+                    ELSE IF s.injected = "exception4" THEN "InjectedLinAlgError"
+                    ELSE IF s.injected = "exception5" THEN "InjectedTypeError" ELSE "ValueError"
      IN Step([s EXCEPT !.phase = "crashed", !.ended = "crash"],
              Chk(inj \/ Ev.type \in {"NonProgress", "RunTimeout"}, "C09.no_crash")
         \cup Chk(Ev.type # "NonProgress", "C03.non_progress_bounded")
         \* the per-run watchdog fired: optimize() did not return within the wall-clock limit
         \cup Chk(Ev.type # "RunTimeout", "C03.run_terminates")
         \cup Chk(inj => Ev.type = exptype,
-                 IF s.injected \in {"exception", "exception2", "exception3", "exception4"} THEN "C10.same_exception_type"
+                 IF s.injected \in {"exception", "exception2", "exception3", "exception4", "exception5"} THEN "C10.same_exception_type"
                  ELSE "C10.invalid_value_is_valueerror")
         \cup Chk(inj => (Ev.fc = n /\ Ev.ncalls = n + 1), "C10.count_only_valid")
         \cup Chk(inj => (Ev.loggedfinite /\ Ev.nlog <= n), "C10.nothing_invalid_logged"))
